@@ -604,6 +604,8 @@ Proof.
   - now apply InvA_fire_section.
   - now apply InvA_cb_return.
   - destruct (Nat.eqb c 0); [exact H|]. destruct (cancel_root_frame s c) as [E1 [E2 [E3 _]]]. now apply (InvA_Qext s).
+  - destruct (watch_step_spec s c) as [->|[x [y [Hx [-> Hy]]]]]; [exact H|]. wsplit Hy. destruct (getc_nth_error s c x Hx) as [Eg Hl].
+    apply InvA_setc; [exact H | now rewrite Eg | now rewrite Eg | intros _ Hp; now rewrite Eg, <- Wcpcv | now rewrite Eg, <- Wwfirepc].
 Qed.
 
 Lemma init_InvA k : InvA (init k).
